@@ -298,7 +298,25 @@ def int_alias_discipline(chk: Check) -> None:
                'replaces / cancels the interrupt action while a kill may be pending (_killing aliases that action): the kill\'s '
                'action is cancelled, the process carries on, and since _killing is never cleared every later kill() returns the '
                'cancelled action -- the process is unkillable') + '; facts at the site: ' + (', '.join(fmt_atom(a) for a in held) or 'none')
-        chk.ob('INT-alias', f, ok, why, node=c, kind='replace-may-cancel-pending-kill' if not ok else 'replace-safe')
+        # what the site does know: part of the kind, so that a listed finding names the guard it was triaged under
+        union = frozenset().union(*[fs for _, fs in ff.site_facts(c)]) if ff.site_facts(c) else frozenset()
+        common_facts = frozenset.intersection(*[fs for _, fs in ff.site_facts(c)]) if ff.site_facts(c) else frozenset()
+        from ..rules import dominating_conditions
+        guards = set(common_facts)
+        for n_, _ in ff.site_facts(c):
+            guards |= dominating_conditions(ff, n_, possible=True)
+        tags = []
+        if not_none_any(guards, 'self._pausing'):
+            tags.append('a-pause-is-pending')
+        if truthy(guards, STEPPING):
+            tags.append('stepping')
+        if any(a[0] == 'differ' and ('cookie' in a[1] or 'cookie' in a[2]) for a in guards):
+            tags.append('cookie-mismatch')
+        chk.ob('INT-alias', f, ok, why, node=c, kind=('replace-may-cancel-pending-kill[' + ','.join(tags) + ']') if not ok else 'replace-safe')
+
+
+def not_none_any(fs, key: str) -> bool:
+    return ('notnone', key) in fs or ('T', key) in fs
 
 
 def _alias_reestablished(cfg, n) -> bool:
@@ -389,25 +407,71 @@ def interrupt_delivery(chk: Check) -> None:
 
 # ---------------------------------------------------------------------- 6. cancel hook
 def cancel_hook(chk: Check) -> None:
+    """Cancelling the process future kills the process -- for a freshly constructed process AND for a loaded one.
+
+    A *kill-on-cancel callback* is any function that calls ``self.kill(...)`` under the fact ``<its argument>.cancelled()``.
+    It must be registered (``add_done_callback``) on the object that ends up being ``self._future``:
+      fresh   in init() (runs after construction), or in __init__ on the value assigned to ``_future``
+      loaded  in init() (runs after load), or in load_instance_state AFTER the base class restored the auto-persisted
+              members (``_future`` is one of them: a registration made before that is on a throw-away object)"""
+    from ..rules import resolve_callable_ref
     prog = chk.prog
+    proc = prog.cls('processes.Process')
+
+    def kill_on_cancel(g) -> bool:
+        if g is None or isinstance(g.node, ast.Lambda):
+            return False
+        params = g.params[1:] if g.cls is not None else g.params
+        if not params:
+            return False
+        ffg = chk.ctx.facts.analyse(g)
+        kills = [c for c in calls_in_func(g, 'kill') if norm(c.func) == 'self.kill']
+        return len(kills) >= 1 and all(('T', f'{params[0]}.cancelled()') in fs for c in kills for _, fs in ffg.site_facts(c))
+
+    def registrations(f):
+        """(node, registered-object text) of kill-on-cancel registrations in the analysis view of f."""
+        out = []
+        ffv = chk.ctx.facts.analyse(f)
+        for c in calls_in_func(f, 'add_done_callback'):
+            if not c.args:
+                continue
+            targets = resolve_callable_ref(chk.ctx, f, c.args[0])
+            if targets and all(kill_on_cancel(prog.view(g)) for g, _ in targets):
+                for n in ffv.cfg.nodes_containing(c):
+                    out.append((n, ffv.canon.key(c.func.value), c, ffv))
+        return out
+
     init = prog.func('processes.Process.init')
-    tk = init.nested.get('try_killing')
-    chk.need(tk is not None, 'the future-cancel hook (try_killing) was not found in Process.init')
-    reg = [c for c in calls_in_func(init, 'add_done_callback') if norm(c.func.value) == 'self._future' and c.args and norm(c.args[0]) == 'try_killing']
-    chk.ob('PAIR-cancel-hook', init, len(reg) == 1, 'init() registers the cancel hook on the process future', node=reg[0] if reg else init.node,
+    ctor = prog.func('processes.Process.__init__')
+    load = prog.func('processes.Process.load_instance_state')
+    reg_init = [r for r in registrations(init) if r[1] == 'self._future']
+    reg_ctor = registrations(ctor)
+    reg_load = registrations(load)
+    # fresh processes
+    fresh_ok = bool(reg_init)
+    if not fresh_ok:
+        for n, key, c, ffv in reg_ctor:
+            # registered on the very object assigned to self._future
+            asg = [m for m in ffv.cfg.nodes if m.kind == 'stmt' and isinstance(m.ast, ast.Assign) and norm(m.ast.targets[0]) == 'self._future']
+            fresh_ok |= key == 'self._future' or any(norm(m.ast.value) == key or key in norm(m.ast.value) for m in asg)
+    chk.ob('PAIR-cancel-hook', ctor if not reg_init else init, fresh_ok, 'a newly constructed process kills itself when its future is cancelled (kill-on-cancel callback registered on the process future)',
            kind='registered')
-    fparam = tk.params[0] if tk.params else ''
-    kills = calls_in_func(tk, 'kill')
-    ff = chk.ctx.facts.analyse(tk)
-    ok = len(kills) == 1 and norm(kills[0].func) == 'self.kill' and all(('T', f'{fparam}.cancelled()') in fs for _, fs in ff.site_facts(kills[0]))
-    chk.ob('PAIR-cancel-hook', tk, ok, 'the hook calls kill() exactly when the future was cancelled', node=kills[0] if kills else tk.node,
-           kind='kills-when-cancelled')
-    # registration must not be conditional on anything but the future being pending
-    if reg:
-        fi = chk.ctx.facts.analyse(init)
-        facts = [fs for _, fs in fi.site_facts(reg[0])]
-        extra = [a for fs in facts for a in fs if a[1] not in ('self._future.done()', 'self._communicator') and 'identifier' not in a[1]]
-        chk.info('PAIR-cancel-hook', f'facts at the registration: {sorted(set(a for fs in facts for a in fs))}')
+    # loaded processes
+    loaded_ok = bool(reg_init)
+    if not loaded_ok and reg_load:
+        lcfg = reg_load[0][3].cfg
+        sup = [m for m in lcfg.nodes if m.expr() is not None and any(isinstance(x, ast.Call) and isinstance(x.func, ast.Attribute) and x.func.attr == 'load_instance_state'
+                                                                      and isinstance(x.func.value, ast.Call) and unparse(x.func.value.func) == 'super' for x in walk_shallow(m.expr()))]
+        loaded_ok = bool(sup) and all(key == 'self._future' and lcfg.must_pass(lcfg.entry, [n], lambda m: m in sup, edge_ok=no_exc) for n, key, c, ffv in reg_load)
+    chk.ob('PAIR-cancel-hook', load if not reg_init else init, loaded_ok, 'a process recreated from a checkpoint does too: the callback is registered on the RESTORED future '
+           '(in init(), or in load_instance_state after the auto-persisted members -- _future among them -- were restored)', kind='registered-after-restore')
+    # the registration in init() depends only on the future still being pending
+    if reg_init:
+        n, key, c, ffv = reg_init[0]
+        from ..report import structural_path
+        sp = structural_path(init, c)
+        extra = [part for part in sp.split('>') if part and part not in ('if not self._future.done()', 'if not self.future().done()')]
+        chk.ob('PAIR-cancel-hook', init, not extra, f'the registration is conditional on nothing but the future being pending ({sp or "unconditional"})', node=c, kind='registration-unconditional')
     # recreate_from -> init too (loaded processes)
     rf = prog.func('processes.Process.recreate_from')
     chk.ob('PAIR-cancel-hook', rf, any('init' in norm(c) for c in calls_in_func(rf, 'call_with_super_check')),
